@@ -164,7 +164,7 @@ class Ctx:
         t = self.t
         table = {k: tuple(v) for k, v in e["pos"].items()}
         hist, o, exp = e["h"], e["a"], e["e"]
-        hf = make_hash(table)
+        hf = make_hash(table, size=self.M)
         if self.strategy:
             hf = None if self.strategy == "fnv" else strategy_fn(self.strategy)
         f = self.new(hf)
